@@ -157,6 +157,23 @@ func genExtras(r *rng, tag bool) []hdr {
 	if r.coin(1, 4) {
 		r.shuffle(len(hs), func(i, j int) { hs[i], hs[j] = hs[j], hs[i] })
 	}
+	// extra headers git accepts after the first other header, spelt like a tree / parent /
+	// object / type line: they are none of those (git reads the tree line first and the parents
+	// directly after it; object and type are the first two lines of a tag)
+	if len(hs) >= 1 && r.coin(1, 5) {
+		var fake hdr
+		val := []byte(hex.EncodeToString(randOID(r)))
+		if r.coin(1, 4) {
+			val = []byte("of nothing")
+		}
+		if tag {
+			fake = []hdr{{[]byte("object"), val}, {[]byte("type"), []byte("blob")}}[r.n(2)]
+		} else {
+			fake = []hdr{{[]byte("parent"), val}, {[]byte("tree"), val}}[r.n(2)]
+		}
+		at := 1 + r.n(len(hs))
+		hs = append(hs[:at], append([]hdr{fake}, hs[at:]...)...)
+	}
 	return hs
 }
 
